@@ -76,6 +76,15 @@ def main(tier):
                 continue
             chk.count((kernel.case_key(c), tuple(sorted(par.items()))))
             compare(chk, c, par, got, "jit")
+            if pi == 0 and ci % 3 == 0 and not c.get("limit"):
+                A0 = kernel.case_inputs(c, None)[0]
+                if np.array_equal(A0, np.round(A0)):
+                    # axis-aligned grains written with integer literals: the same values, integer-typed
+                    try:
+                        compare(chk, c, par, kernel.call_impl(core, c, par, int_typed=True), "jit-int-typed-orientations")
+                        chk.count((kernel.case_key(c), "int-typed"))
+                    except Exception as e:  # noqa: BLE001
+                        chk.violation(dict(clause="raised", fabric=c["fab"], regime=c["regime"], exc=type(e).__name__, mode="int-typed"), f"derivatives raised {e!r} on integer-typed axis-aligned orientations", dict(case=c, par=par))
             if pi == 0 and (not quick or ci % 4 == 0):
                 nojit_pairs.append((c, par))
                 jit_results[len(nojit_pairs) - 1] = got
